@@ -184,8 +184,11 @@ def handle_kernel(c):
     G = np.array(c['G'], dtype=float)
     rho = float(c['rho'])
     out = np.array(KSfunction.compute(G, rho), dtype=float).reshape(G.shape[0])
-    d = np.array(KSfunction.derivatives(G, rho)[0], dtype=float)
+    both = KSfunction.derivatives(G, rho)
+    d = np.array(both[0], dtype=float)
+    drho = np.array(both[1], dtype=float).reshape(G.shape[0])
     msgs, sig = [], ''
+    drho_is_derivative, drho_is_code_formula = 0, 0
     frho = Fraction(rho)
     for r in range(G.shape[0]):
         g = [Fraction(float(v)) for v in G[r]]
@@ -196,13 +199,23 @@ def handle_kernel(c):
         if not (dec(M) - eps <= o <= dec(M) + lnn + eps):
             msgs.append('row %d: KS=%s outside [%s, %s]' % (r, o, dec(M), dec(M) + lnn))
             sig = sig or 'bracket'
+        # second return value dKS/drho (outside the property's observe_at; recorded, see FINDINGS.md):
+        # code formula sum(w_j (g_j - M)) / rho ; true derivative = that - ln(S) / rho^2
+        S = sum((dec(frho) * dec(x - M)).exp() for x in g)
+        code = sum(wj * dec(x - M) for wj, x in zip(w, g)) / dec(frho)
+        true = code - S.ln() / (dec(frho) * dec(frho))
+        got_rho = dec(Fraction(float(drho[r])))
+        tol_r = Decimal(10) ** -9 * max(1, abs(code), abs(true))
+        drho_is_code_formula += int(abs(got_rho - code) <= tol_r)
+        drho_is_derivative += int(abs(got_rho - true) <= tol_r)
         for j in range(len(g)):
             if not close(dec(Fraction(float(d[r, j]))), w[j], Decimal(10) ** -9):
                 msgs.append('row %d: derivative[%d]=%r exact %s' % (r, j, d[r, j], w[j]))
                 sig = sig or 'gradient'
     res = {'out': [q(float(v)) for v in out], 'd': [[q(float(v)) for v in row] for row in d]}
     return {'res': res, 'ok': not msgs, 'msg': '; '.join(msgs[:4]), 'sig': sig,
-            'kind': 'kernel:w%d' % G.shape[1]}
+            'kind': 'kernel:w%d' % G.shape[1], 'drho_rows': int(G.shape[0]),
+            'drho_is_derivative': drho_is_derivative, 'drho_is_code_formula': drho_is_code_formula}
 
 
 def handle(c):
